@@ -340,6 +340,18 @@ def _exec_global_instances(fn: ast.AST, module_level: set[str]) -> list[tuple[as
                 ok = isinstance(src, ast.DictComp) and norm(src.value).endswith(".type")
                 if not ok:
                     out.append((v, f"'**{short(v, 30)}' is not the token -> field.type table"))
+                elif isinstance(v, ast.Name):
+                    # the table must stay the field-type table: nothing else may be merged into it afterwards
+                    for m in ast.walk(fn):
+                        if isinstance(m, ast.Call) and isinstance(m.func, ast.Attribute) and isinstance(m.func.value, ast.Name) and m.func.value.id == v.id \
+                                and m.func.attr in ("update", "setdefault", "__setitem__"):
+                            out.append((m, f"'{short(m, 50)}' merges other objects into the table handed to exec"))
+                        if isinstance(m, (ast.Assign, ast.AugAssign)):
+                            for t in (m.targets if isinstance(m, ast.Assign) else [m.target]):
+                                if isinstance(t, ast.Subscript) and isinstance(t.value, ast.Name) and t.value.id == v.id:
+                                    out.append((m, f"'{short(m, 50)}' adds another object to the table handed to exec"))
+                                if isinstance(m, ast.AugAssign) and isinstance(t, ast.Name) and t.id == v.id:
+                                    out.append((m, f"'{short(m, 50)}' merges other objects into the table handed to exec"))
                 continue
             val = resolve_local(fn, v)
             if isinstance(val, ast.Name) and val.id in module_level:
